@@ -143,6 +143,15 @@ def specHost : List Field → Option Bytes
 def renderHead (reqLine : Bytes) (fs : List Field) : Bytes :=
   reqLine ++ CR :: LF :: (fs.flatMap Field.render ++ [CR, LF])
 
+/-- `method SP request-target SP HTTP/1.1` (RFC 9112 §3) -/
+def httpVer : Bytes := [0x48, 0x54, 0x54, 0x50, 0x2f, 0x31, 0x2e, 0x31]
+def requestLine (method target : Bytes) : Bytes := method ++ 0x20 :: (target ++ 0x20 :: httpVer)
+
+/-- line terminator: CRLF, or the bare LF a recipient MAY accept (RFC 9112 §2.2; mitmproxy's HTTP/1 reader does) -/
+def eol (lf : Bool) : Bytes := if lf then [LF] else [CR, LF]
+def renderHeadEol (lf : Bool) (reqLine : Bytes) (fs : List Field) : Bytes :=
+  reqLine ++ eol lf ++ (fs.flatMap (fun f => f.body ++ eol lf) ++ eol lf)
+
 /-! ## `_starts_like_quic`, `_get_client_hello` -/
 
 def be32 (a b c d : UInt8) : Nat := a.toNat * 16777216 + b.toNat * 65536 + c.toNat * 256 + d.toNat
